@@ -248,6 +248,33 @@ func runAdvPause(c *drv.Ctx) error {
 	return w.Flush()
 }
 
+func runConcFam(c *drv.Ctx) error {
+	w := cw.New(c.Out, famHeader, "fcase", []cw.Check{{Name: "MISMATCH", Fn: "fcase_ok"}, {Name: "MON20F", Fn: "fcase_mon"}})
+	w.ShardSize = 100
+	w.Stats.Rule = "one real requestor (empty store) and one real responder over the mocknet, two disjoint generated DAGs; three families, each with a victim request that shares nothing excusable with the others: (ignore) an earlier request with a dedup key and a do-not-send-cids list naming blocks of the victim's DAG has finished, then the victim runs in the default scope; (bucket) two requests share a dedup key, the first finishes on the responder while the victim has registered the key but is held before its first load, a default-scope request over an overlapping DAG is served up to its last link and has stored nothing, then the victim runs; (cancel) another request over the other DAG is cancelled by the caller while the block-carrying rest of its response is queued in its loader, then the victim, whose responder lacks a block, runs. " +
+		"monitor: the victim's delivered nodes and errors equal those of the same request alone, every block of its reference store is in the store, every stored block hashes to its key; correspondence: the model of the victim alone. distinct = distinct terms"
+	run := func(path, kind string) error {
+		var fc famCase
+		if err := drv.ReplayCase(path, &fc); err != nil {
+			return err
+		}
+		return runFamCase(w, fc, kind)
+	}
+	if c.Replay != "" {
+		if err := run(c.Replay, "replay"); err != nil {
+			return err
+		}
+		return w.Flush()
+	}
+	n := c.Count(150, 3000)
+	for i := 0; i < n; i++ {
+		if err := runFamCase(w, famCase{Seed: c.R.U64(), Family: []string{"ignore", "bucket", "cancel"}[i%3]}, "random"); err != nil {
+			return err
+		}
+	}
+	return w.Flush()
+}
+
 func runTraffic(c *drv.Ctx) error {
 	w := cw.New(c.Out, trafficHeader, "tcase", []cw.Check{{Name: "MISMATCH", Fn: "tcase_ok"}, {Name: "MON24", Fn: "tcase_mon"}})
 	w.ShardSize = 120
@@ -298,6 +325,8 @@ func main() {
 		drv.Main("concurrent", runConcurrent)
 	case "advpause":
 		drv.Main("advpause", runAdvPause)
+	case "concfam":
+		drv.Main("concfam", runConcFam)
 	default:
 		drv.Main("loader", runLoader)
 	}
